@@ -85,6 +85,12 @@ func forall_[F any](f F) bool        { return true }
 func exists_[F any](f F) bool        { return true }
 func result_[T any](i int) T         { var z T; return z }
 func wild_() int                     { return 0 }
+func wildcap_() int                  { return 0 }
+func rangeidx_() int                 { return 0 }
+func fresh_[T any](x T) bool          { return true }
+func samearr_[T any](a, b T) bool     { return true }
+func typeis_[T any](x any) bool       { return true }
+func as_[T any](x any) T              { var z T; return z }
 `
 
 // specDecl renders a spec block as a Go function declaration.
